@@ -796,6 +796,12 @@ func (c *FnCtx) ghostAsserts(st *State, in ssa.Instruction) {
 		g.done = true
 		env := c.loopEnv(st)
 		if g.cl.Kind == "ghostset" {
+			if g.cl.Target.Fn == "gf" {
+				fam := "G$gf." + g.cl.Target.Args[1].(EStr).V
+				obj, val := env.evalInt(g.cl.Target.Args[0]), env.evalInt(g.cl.E)
+				c.heapSet(st, fam, arrSort(sInt), sto(c.heapGet(st, fam, arrSort(sInt)), obj, val))
+				continue
+			}
 			fam := "G$gfa." + g.cl.Target.Args[1].(EStr).V
 			obj, idx, val := env.evalInt(g.cl.Target.Args[0]), env.evalInt(g.cl.Target.Args[2]), env.evalInt(g.cl.E)
 			ms := mapSort(2, sInt)
@@ -1641,7 +1647,7 @@ func (c *FnCtx) checkFrame() {
 	}
 	for _, cl := range c.fc.Clauses {
 		if cl.Kind == "ghostset" {
-			pre["G$gfa."+cl.Target.Args[1].(EStr).V] = true
+			pre["G$"+cl.Target.Fn+"."+cl.Target.Args[1].(EStr).V] = true
 			if len(c.loops) > 0 {
 				panic(specErr{"ghost set in a function with loops is not supported"})
 			}
